@@ -445,16 +445,18 @@ def triage(ctx: Ctx, w: Write, kind: str, why: str, schema: Schema):
     return None, ""
 
 
-def e_rules(p: Project, rep: Report, thorough=False):
+def e_rules(p: Project, rep: Report, thorough=False, func_filter=None):
     rep.rule("E-R1", "no shared location (module global, class attribute, descriptor attribute, shared registry) is both written and read by code in scope")
     rep.rule("E-R2", "no function in scope mutates an object it was given (parameter, or alias of one) unless it first re-binds it to a copy, or every call site passes a fresh object (frozen triage table, side conditions re-checked)")
     rep.rule("E-R3", "element descriptors store converted values on the owning instance, never on themselves")
     rep.rule("E-R4", "no mutable default argument, no module-level or class-level parser/builder instance, no memoising decorator on a function returning mutable objects")
     schema = Schema(p)
     funcs = scope_functions(p, thorough)
-    rep.unit("functions_in_scope", len(funcs))
     attr_reads = _attr_reads(p, funcs)
     name_reads = _name_reads(p, funcs)
+    if func_filter is not None:
+        funcs = [f_ for f_ in funcs if func_filter(*f_)]
+    rep.unit("functions_in_scope", len(funcs))
     element = p.get_class(TYPES, "Element")
     nw = 0
     counts: Dict[str, int] = {}
@@ -532,7 +534,8 @@ def e_rules(p: Project, rep: Report, thorough=False):
     rep.unit("write_sites", nw)
     for k, v in counts.items():
         rep.unit(f"writes_{k}", v)
-    rep.floor("E-R2", nw, 50, "write sites")
+    if func_filter is None:
+        rep.floor("E-R2", nw, 50, "write sites")
     # ---- E-R4 shared parser / builder instances; mutable class-level containers mutated via self handled above
     parser_classes = set()
     for bname, kind_, payload in p.module("ofxtools.Parser").bindings:
